@@ -24,6 +24,7 @@ import MalVerif.Py.GenModel.Assoc
 import MalVerif.Py.AbsModel
 import MalVerif.Py.GenLang.Attacks
 import MalVerif.Py.AbsLang
+import MalVerif.Py.GenWrapper.Wrapper
 open Lean MalVerif
 
 namespace Drv
@@ -1073,6 +1074,160 @@ def opGenResolve (j : Json) : R Json := do
 
 end GenXL
 
+/-! #### graph generation (`genexec2`): `AttackGraph(lang_graph, model)` / `create_attack_graph` of the GENERATED code.
+The language graph is the generated `lg__generate_graph` on the specification heap `loadPy L` (`PyW.newLanguageGraph`), the
+model heap is built by the generated `model_add_asset` / `model_add_association` (as `langgen.build_model` builds the real
+one) or — mode `wrapper` — by the generated `model__from_dict` inside the generated `create_attack_graph`, the graph by the
+generated `graph___init__` in the environment `PyW.evalEnvOf` of the two heaps (every callee the generated function of its
+domain). -/
+namespace GenXW
+open MalVerif.Py
+
+def wErrName : PyW.WErr → String
+  | .badZipFile => "BadZipFile" | .fileError => "FileError" | .valueError => "ValueError" | .keyError => "KeyError"
+  | .typeError => "TypeError" | .systemExit c => s!"SystemExit({c})"
+  | .lang e => GenX.pyErrName e | .model e => GenXM.pyErrName e | .graph e => GenX.pyErrName e
+
+/-- `langgen.build_model`: one pjs object per asset (constructor + `setattr` of the defenses: allocation), `add_asset(obj,
+asset_id=id)`; one association object per link, its two fields set to the asset objects, `add_association` -/
+def buildModelApi (m : Inst) : Except String PyM.H := do
+  let mut s : PyM.H := { name := "m" }
+  for a in m.assets do
+    let o : PyM.PyAsset := { type := a.type, name := some a.name, defenses := a.defenses }
+    match PyM.Gen.model_add_asset (PyM.newAssetObj s o) (GenXM.envOf s) s.afresh (some a.id) true with
+    | .ok s' => s := GenXM.normH s'
+    | .error e => throw (GenXM.pyErrName e)
+  -- `byid[i]`: the object built for the (last) asset with that id = its position in the list
+  let refOf (i : Int) : Except String Nat :=
+    match (m.assets.zipIdx.filter (fun e => e.1.id == i)).getLast? with
+    | some e => pure e.2
+    | none => throw "KeyError"
+  for l in m.links do
+    let left ← l.left.mapM refOf
+    let right ← l.right.mapM refOf
+    if h : l.lf ≠ l.rf then
+      match PyM.Gen.model_add_association (PyM.newAssocObj s { cls := l.cls, lf := l.lf, rf := l.rf, left := left, right := right, distinct := h })
+              (GenXM.envOf s) s.lfresh with
+      | .ok s' => s := GenXM.normH s'
+      | .error e => throw (GenXM.pyErrName e)
+    else throw "skip:one-field-association-class"
+  pure s
+
+/-- the attackers of the payload `[id, name, [[asset id, [steps]]]]`, added with the generated `model_add_attacker` -/
+def addAttackers (s0 : PyM.H) (m : Inst) (atts : List (Int × String × List (Int × List String))) : Except String PyM.H := do
+  let mut s := s0
+  for (i, nm, eps) in atts do
+    s := PyM.newAttObj s { name := some nm }
+    let t := s.tfresh - 1
+    for (aid, steps) in eps do
+      match (m.assets.zipIdx.filter (fun e => e.1.id == aid)).getLast? with
+      | none => throw "KeyError"
+      | some e =>
+        for st in steps do
+          s := PyM.Gen.attachment_add_entry_point s (GenXM.envOf s) t e.2 st
+    s := GenXM.normH (PyM.Gen.model_add_attacker s (GenXM.envOf s) t (some i))
+  pure s
+
+/-- the document `Model._to_dict` writes for this model, as `json.load` reads it back (keys of `assets` / `attackers` are
+strings) -/
+def docOfInst (m : Inst) (atts : List (Int × String × List (Int × List String))) : PyM.PyDoc :=
+  let k (i : Int) : Ser.Key := .s (toString i)
+  { metadata := some { name := some "m", langVersion := some "", langID := some "", malVersion := some "0.1.0-SNAPSHOT",
+                       MAL_Toolbox_Version_hyphen := some "", info := some "Created by the mal-toolbox model python module." }
+    assets := some (m.assets.map (fun a => (k a.id, .dict { name := some a.name, type := some a.type, defenses := some a.defenses })))
+    associations := some (m.links.map (fun l => [(l.cls, .fields [(l.lf, PyM.targetsOfInts l.left), (l.rf, PyM.targetsOfInts l.right)])]))
+    attackers := some (atts.map (fun (i, nm, eps) =>
+      (k i, { name := some nm, entry_points := some (eps.map (fun (a, sts) => (k a, { attack_steps := some sts }))) }))) }
+
+/-- the `ttc` of a generated node: a step dictionary of the specification heap is read through `Py.ttcDict` (W5), which keeps
+the canonical JSON text of the whole value under the pseudo-key `<json>` -/
+def ttcText (d : Option PyDictS) : String :=
+  match d with
+  | some l => (match l.find? (·.1 == "<json>") with | some e => e.2 | none => GenX.ttcToText d)
+  | none => "null"
+
+def obsGraph (s : H) : Json :=
+  let nid (r : Nat) : Json := GenX.jOptI (s.n r).id
+  let aid (a : Nat) : Json := GenX.jOptI (s.a a).id
+  jO [("nodes", jsonOfList (fun r =>
+          let o := s.n r
+          jO [("id", nid r), ("full_name", jS (Gen.node_full_name s r)), ("asset", Drv.jOptS (o.asset.map (·.name))),
+              ("name", jS o.name), ("type", jS o.type), ("ttc", jS (ttcText o.ttc)), ("tags", jsonOfList jS o.tags),
+              ("mitre", Drv.jOptS o.mitre_info), ("defense", Drv.jOptS (o.defense_status.map (·.text))),
+              ("exist", Drv.jOptB o.existence_status), ("viable", jB o.is_viable), ("necessary", jB o.is_necessary),
+              ("children", jsonOfList nid o.children), ("parents", jsonOfList nid o.parents),
+              ("compromised_by", jsonOfList aid o.compromised_by), ("extras", jS o.extras)]) s.nodes),
+      ("edges", Json.arr (s.nodes.flatMap (fun r => (s.n r).children.map (fun c => Json.arr #[nid r, nid c]))).toArray),
+      ("parent_edges", Json.arr (s.nodes.flatMap (fun r => (s.n r).parents.map (fun p => Json.arr #[nid p, nid r]))).toArray),
+      ("attackers", jsonOfList (fun a =>
+          let o := s.a a
+          jO [("id", aid a), ("name", jS o.name), ("entry_points", jsonOfList nid o.entry_points),
+              ("reached", jsonOfList nid o.reached_attack_steps)]) s.attackers),
+      ("idIdx", jsonOfList (fun (e : Int × Nat) => Json.arr #[jI e.1, nid e.2]) s._id_to_node),
+      ("nameIdx", jsonOfList (fun (e : String × Nat) => Json.arr #[jS e.1, nid e.2]) s._full_name_to_node),
+      ("next", Json.arr #[jI s.next_node_id, jI s.next_attacker_id])]
+
+def parseAtts (j : Json) : R (List (Int × String × List (Int × List String))) := do
+  match (← jfieldOpt jarr j "attackers") with
+  | none => pure []
+  | some l => l.mapM (fun e => do
+      match (← jarr e) with
+      | [i, nm, eps] =>
+        let eps ← (← jarr eps).mapM (fun ep => do
+          match (← jarr ep) with
+          | [a, sts] => pure ((← jint a), (← jlist jstr sts))
+          | _ => throw "bad entry point")
+        pure ((← jint i), (← jstr nm), eps)
+      | _ => throw "bad attacker")
+
+/-- op `gen_generate {lang, inst, attackers?, mode?, attach?, calc?, lookups?}` -/
+def opGenGenerate (j : Json) : R Json := do
+  let L ← Drv.parseLang (← jget j "lang")
+  let m ← Drv.parseInst (← jget j "inst")
+  let atts ← parseAtts j
+  let mode := (← jfieldOpt jstr j "mode").getD "api"
+  let attach := (← jfieldOpt jbool j "attach").getD false
+  let ana := (← jfieldOpt jbool j "calc").getD false
+  let lf := (← jfieldOpt jstr j "lang_file").getD "lang.mar"
+  let mf := (← jfieldOpt jstr j "model_file").getD "model.json"
+  let spec := LSpec.loadPy L
+  let doc := docOfInst m atts
+  let w0 : PyW.WEnv :=
+    { read_mar := fun p => if p == "lang.mar" then .ok spec else .error .badZipFile
+      compile_mal := fun p => if p == "lang.mal" then .ok spec else .error .fileError
+      load_yaml := fun p => if p == "model.yml" then .ok doc else .error .fileError
+      load_json := fun p => if p == "model.json" then .ok doc else .error .fileError
+      evalFuel := 1000, recLimit := 1000 }
+  let r : Except String PyW.WGraph :=
+    if mode == "wrapper" then
+      match PyW.Gen.create_attack_graph w0 lf mf attach ana with
+      | .ok g => .ok g
+      | .error e => .error (wErrName e)
+    else do
+      let mh ← buildModelApi m
+      let mh ← addAttackers mh m atts
+      let w := { w0 with menv := GenXM.envOf mh }
+      let run : Except PyW.WErr PyW.WGraph := do
+        let lg ← PyW.newLanguageGraph w spec
+        let g ← PyW.newAttackGraph w lg mh
+        let g ← if attach then PyW.agAttachAttackers w g else pure g
+        if ana then PyW.agCalculate w g else pure g
+      match run with
+      | .ok g => .ok g
+      | .error e => .error (wErrName e)
+  match r with
+  | .error e => pure (jO [("error", jS e)])
+  | .ok g =>
+    let s := GenX.normH g.h
+    let ids := (← jfieldOpt (jlist jint) j "ids").getD []
+    let names := (← jfieldOpt (jlist jstr) j "names").getD []
+    let f (o : Option Nat) : Json := match o with | some r => GenX.jOptI (s.n r).id | none => Json.null
+    pure (jO [("graph", obsGraph s),
+              ("lookups", jO [("ids", jsonOfList (fun i => f (Gen.graph_get_node_by_id s i)) ids),
+                              ("names", jsonOfList (fun n => f (Gen.graph_get_node_by_full_name s n)) names)])])
+
+end GenXW
+
 def dispatch (j : Json) : R Json := do
   let op ← jfield jstr j "op"
   match op with
@@ -1097,6 +1252,7 @@ def dispatch (j : Json) : R Json := do
   | "gen_apriori" => GenX.opGenApriori j
   | "gen_model_hist" => GenXM.opGenModelHist j
   | "gen_resolve" => GenXL.opGenResolve j
+  | "gen_generate" => GenXW.opGenGenerate j
   | _ => throw "bad-op"
 
 def handle (line : String) : String :=
